@@ -33,10 +33,10 @@ Definition audited_mut : list (string * string * string * string) := [
   ("plsql.go", "ExistExpr", "append", "query.postProcessors");
   ("plsql.go", "FunExpr", "append", "query.postProcessors");
   ("plsql.go", "*Query.addPostProcessors", "append", "query.postProcessors");
-  ("plsql.go", "FunExpr", "index-assign", "query.singletonExecutions");
-  ("plsql.go", "AggrFunExpr", "index-assign", "query.singletonExecutions");
-  (* shareSingletons copies one query's memo into the memo of its per-dimension copy *)
-  ("plsql.go", "shareSingletons", "index-assign", "dst");
+  (* the per-query memo of ONCE / GLOBAL / whole-table aggregate results: FunExpr, AggrFunExpr and shareSingletons
+     (one query's memo into the memo of its per-dimension copy) all write it through setSingleton, under
+     query.singletonMut (D79: the ON clause of a PARALLEL join is evaluated by goroutines sharing the query) *)
+  ("plsql.go", "*Query.setSingleton", "index-assign", "query.singletonExecutions");
   (* locals made with make() whose name is shadowed by a parameter / a comma-ok binding *)
   ("plsql.go", "AggrFuncArgReader", "append", "slice");
   ("plsql.go", "ExecGroupBy", "index-assign", "current");
